@@ -51,6 +51,12 @@ with cf.ThreadPoolExecutor(max_workers=int(os.environ.get("JOBS", "6"))) as ex:
             continue
         result[sid], detail[sid] = det, rules
         print(sid, "->", det, {k: v for k, v in rules.items() if k not in det} or "", flush=True)
-if not only:
+if only:
+    # partial run: merge into the stored matrix
+    rp, dp = os.path.join(HERE, "seeded", "detection.json"), os.path.join(HERE, "seeded", "detection_detail.json")
+    old_r, old_d = json.load(open(rp)), json.load(open(dp))
+    old_r.update(result); old_d.update(detail)
+    result, detail = old_r, old_d
+if True:
     json.dump(result, open(os.path.join(HERE, "seeded", "detection.json"), "w"), indent=1, sort_keys=True)
     json.dump(detail, open(os.path.join(HERE, "seeded", "detection_detail.json"), "w"), indent=1, sort_keys=True)
